@@ -79,6 +79,10 @@ func c17Cases() []retCase {
 		return `{"parser_settings": {"version": "omni.2.1", "file_format_type": "` + format + `"}, ` + fd + `
  "transform_declarations": {"FINAL_OUTPUT": {` + xp + `"object": {"v": {"xpath": "v"}}}}}`
 	}
+	// the same with a cast that fails for every other record: a record whose transform fails must be let go like any other
+	schI := func(format, fileDecl, xpath string) string {
+		return strings.Replace(sch(format, fileDecl, xpath), `{"v": {"xpath": "v"}}`, `{"v": {"xpath": "v", "type": "int"}}`, 1)
+	}
 	alt := func(a, b string) func(int) string {
 		return func(i int) string {
 			if i%2 == 0 {
@@ -111,6 +115,17 @@ func c17Cases() []retCase {
 		{"edi/segments", sch("edi", `{"segment_delimiter": "~", "element_delimiter": "*", "ignore_crlf": true, "segment_declarations": [
 		   {"name": "ISA", "child_segments": [{"name": "HDR", "min": 0, "max": -1, "is_target": true, "elements": [{"name": "v", "index": 1}],
 		     "child_segments": [{"name": "ITM", "min": 0, "max": -1, "elements": [{"name": "w", "index": 1}]}]}, {"name": "IEA"}]}]}`, ""), "ISA*0~\n", "IEA*0~\n", func(int) string { return "HDR*1~\nITM*x~\nITM*y~\n\n" }, 1},
+		{"xml/failing-transform", schI("xml", "", "/root/rec"), "<root><hdr>h</hdr>", "</root>", alt("<rec><v>1</v><w>x</w></rec>", "<rec><v>bad</v><w>y</w></rec>"), 1},
+		{"json/failing-transform", schI("json", "", "/recs/*"), `{"recs": [`, `{"v": "7"}]}`, alt(`{"v": "1", "w": [1]},`, `{"v": "bad", "w": [2]},`), 1},
+		{"csv/failing-transform", schI("csv", `{"delimiter": ",", "data_row_index": 1, "columns": [{"name": "v"}, {"name": "w"}]}`, ""), "", "", alt("1,x\n", "bad,y\n"), 1},
+		{"csv2/failing-transform", schI("csv2", `{"delimiter": ",", "records": [{"name": "H", "header": "^H", "is_target": true, "columns": [{"name": "v", "index": 2}],
+		   "child_records": [{"name": "D", "header": "^D", "min": 0, "columns": [{"name": "w", "index": 2}]}]}]}`, ""), "", "", alt("H,1\nD,x\n", "H,bad\nD,y\nD,z\n"), 1},
+		{"fixedlength/failing-transform", schI("fixed-length", `{"envelopes": [{"by_rows": 2, "columns": [{"name": "v", "start_pos": 2, "length": 1, "line_pattern": "^A"}]}]}`, ""), "", "", alt("A1\nB2\n", "Ax\nB2\n"), 1},
+		{"fixedlength2/failing-transform", schI("fixedlength2", `{"envelopes": [{"name": "H", "header": "^H", "is_target": true, "columns": [{"name": "v", "start_pos": 2, "length": 1}],
+		   "child_envelopes": [{"name": "D", "header": "^D", "min": 0, "columns": [{"name": "w", "start_pos": 2, "length": 1}]}]}]}`, ""), "", "", alt("H1\nDx\n", "Hb\nDy\nDz\n"), 1},
+		{"edi/failing-transform", schI("edi", `{"segment_delimiter": "~", "element_delimiter": "*", "segment_declarations": [
+		   {"name": "HDR", "min": 0, "max": -1, "is_target": true, "elements": [{"name": "v", "index": 1}],
+		     "child_segments": [{"name": "ITM", "min": 0, "max": -1, "elements": [{"name": "w", "index": 1}]}]}]}`, ""), "", "", alt("HDR*1~ITM*x~", "HDR*bad~ITM*y~ITM*z~"), 1},
 		{"edi/filtered", sch("edi", `{"segment_delimiter": "~", "element_delimiter": "*", "segment_declarations": [
 		   {"name": "HDR", "min": 0, "max": -1, "is_target": true, "elements": [{"name": "v", "index": 1}]}]}`, ".[v='1']"), "", "", alt("HDR*1~", "HDR*2~"), 1},
 	}
@@ -173,7 +188,7 @@ func c17Drive(args []string) int {
 		}
 		events = append(events, M{"ev": "end", "tr": ci + 1, "case": c.Name, "delivered": delivered})
 		sum.Traces++
-		sum.eval(delivered >= 100 && (strings.Contains(c.Name, "filtered") || strings.Contains(c.Unit(0), "\n")), M{"c": c.Name, "k": k})
+		sum.eval(delivered >= 100 && (strings.Contains(c.Name, "filtered") || strings.Contains(c.Name, "failing") || strings.Contains(c.Unit(0), "\n")), M{"c": c.Name, "k": k})
 		if ci == 1 {
 			sum.sample(M{"case": c.Name, "unit": c.Unit(0), "records": k})
 		}
